@@ -97,7 +97,7 @@ func SetMulticastInterface(
 
 	if found {
 		var addr [4]byte
-		copy(addr[:], interfaceAddr)
+		copy(addr[:], interfaceAddr.To4())
 
 		if err := syscall.SetsockoptInet4Addr(
 			socket.RawFd(),
